@@ -6,6 +6,7 @@ import (
 	"sort"
 
 	kv "github.com/XiXi-2024/xixi-kv"
+	"github.com/cespare/xxhash"
 )
 
 // ModelIter is the reference iterator: a cursor over the sorted snapshot of
@@ -82,8 +83,18 @@ func (m *ModelIter) Seek(target []byte) {
 	})
 }
 
-// compareIter checks Valid/Key/Value of the real iterator against the model.
-func compareIter(it *kv.Iterator, m *ModelIter, after string) *Fail {
+// IterAPI is what DB iterators and index iterators have in common.
+type IterAPI interface {
+	Rewind()
+	Seek(key []byte)
+	Next()
+	Valid() bool
+	Key() []byte
+}
+
+// compareIter checks Valid/Key (and the value through checkValue) of the real
+// iterator against the model.
+func compareIter(it IterAPI, m *ModelIter, after string, checkValue func(pos int) *Fail) *Fail {
 	v := it.Valid()
 	if v != m.Valid() {
 		return failf("iter-valid", "after %s: Valid() = %v, reference %v (pos %d of %d)", after, v, m.Valid(), m.Pos, len(m.Keys))
@@ -95,12 +106,11 @@ func compareIter(it *kv.Iterator, m *ModelIter, after string) *Fail {
 	if !bytes.Equal(k, m.Keys[m.Pos]) {
 		return failf("iter-key", "after %s: Key() = %q, reference %q (pos %d of %d)", after, k, m.Keys[m.Pos], m.Pos, len(m.Keys))
 	}
-	val, err := it.Value()
-	if err != nil {
-		return failf("iter-value-error", "after %s: Value() of %q = error %v", after, k, err)
-	}
-	if !sameBytes(val, m.Vals[m.Pos]) {
-		return failf("iter-value", "after %s: Value() of %q = %s, value at creation was %s", after, k, ValueDigest(val), ValueDigest(m.Vals[m.Pos]))
+	if checkValue != nil {
+		if f := checkValue(m.Pos); f != nil {
+			f.Msg = "after " + after + ": " + f.Msg
+			return f
+		}
 	}
 	return nil
 }
@@ -121,15 +131,34 @@ type IterFeatures struct {
 // RunIterSession executes one iterator session against db and the model,
 // applying interleaved writes through apply (which must update model state).
 func RunIterSession(db *kv.DB, model map[string][]byte, spec *IterOp, apply func(op *Op) *Fail, tr func(string, ...any)) (*IterFeatures, *Fail) {
-	feat := &IterFeatures{}
 	m := NewModelIter(model, spec.Prefix, spec.Reverse)
-	feat.SnapshotKeys = len(m.Keys)
-	feat.PrefixFiltered = len(model) - len(m.Keys)
 	it := db.NewIterator(kv.IteratorOptions{Prefix: append([]byte(nil), spec.Prefix...), Reverse: spec.Reverse})
 	defer it.Close()
-	positioned := len(spec.Prefix) == 0 // a fresh iterator without prefix may be read at once
+	checkValue := func(pos int) *Fail {
+		val, err := it.Value()
+		if err != nil {
+			return failf("iter-value-error", "Value() of %q = error %v", m.Keys[pos], err)
+		}
+		if !sameBytes(val, m.Vals[pos]) {
+			return failf("iter-value", "Value() of %q = %s, value at creation was %s", m.Keys[pos], ValueDigest(val), ValueDigest(m.Vals[pos]))
+		}
+		return nil
+	}
+	feat, f := RunIterCalls(it, m, spec, len(spec.Prefix) == 0, checkValue, apply, tr)
+	feat.PrefixFiltered = len(model) - len(m.Keys)
+	return feat, f
+}
+
+// RunIterCalls drives any iterator through the calls of spec and compares it
+// with the reference cursor after every call, then does a full traversal.
+// readFresh says whether the iterator may be read before the first
+// Rewind/Seek (true for iterators without prefix).
+func RunIterCalls(it IterAPI, m *ModelIter, spec *IterOp, readFresh bool, checkValue func(pos int) *Fail, apply func(op *Op) *Fail, tr func(string, ...any)) (*IterFeatures, *Fail) {
+	feat := &IterFeatures{}
+	feat.SnapshotKeys = len(m.Keys)
+	positioned := readFresh
 	if positioned {
-		if f := compareIter(it, m, "creation"); f != nil {
+		if f := compareIter(it, m, "creation", checkValue); f != nil {
 			return feat, f
 		}
 	}
@@ -193,7 +222,7 @@ func RunIterSession(db *kv.DB, model map[string][]byte, spec *IterOp, apply func
 			continue
 		}
 		if positioned {
-			if f := compareIter(it, m, what); f != nil {
+			if f := compareIter(it, m, what, checkValue); f != nil {
 				return feat, f
 			}
 			if tr != nil {
@@ -214,7 +243,7 @@ func RunIterSession(db *kv.DB, model map[string][]byte, spec *IterOp, apply func
 			return feat, failf("iter-extra-key", "full traversal yields more than the %d snapshot keys: extra %q", len(m.Keys), it.Key())
 		}
 		m.Pos = n
-		if f := compareIter(it, m, fmt.Sprintf("traversal step %d", n)); f != nil {
+		if f := compareIter(it, m, fmt.Sprintf("traversal step %d", n), checkValue); f != nil {
 			return feat, f
 		}
 		n++
@@ -233,10 +262,57 @@ func (r *Runner) execIter(op *Op) *Fail {
 		_, _, f := r.exec(w)
 		return f
 	}
+	var snapKeys [][]byte
+	for k := range r.Model {
+		if bytes.HasPrefix([]byte(k), op.Iter.Prefix) {
+			snapKeys = append(snapKeys, []byte(k))
+		}
+	}
 	feat, f := RunIterSession(r.DB, r.Model, op.Iter, apply, r.tr)
 	r.F.Enumerations++
+	r.F.IterSessions++
 	if feat != nil {
 		r.lastIter = feat
+		if r.F.IterLabels == nil {
+			r.F.IterLabels = map[string]int{}
+		}
+		spread := ShardsUsed(snapKeys, r.Opt.Shards) >= 2
+		if spread && (feat.Seeks > 0 || feat.RewindAfterNext) {
+			r.F.IterNonTrivial++
+		}
+		feat.AddTo(r.F.IterLabels, op.Iter)
 	}
 	return f
+}
+
+// AddTo accumulates the measured session features as labels.
+func (f *IterFeatures) AddTo(l map[string]int, spec *IterOp) {
+	inc := func(c bool, n string) {
+		if c {
+			l[n]++
+		}
+	}
+	inc(f.RewindAfterExhaustion, "iter-rewind-after-exhaustion")
+	inc(f.RewindAfterNext, "iter-rewind-after-next")
+	inc(f.SeekAfterNext, "iter-seek-after-next")
+	inc(f.SeeksInARow, "iter-several-seeks-in-a-row")
+	inc(f.WriteAfterCreate, "iter-write-after-creation")
+	inc(spec.Reverse, "iter-reverse")
+	inc(len(spec.Prefix) > 0 && f.PrefixFiltered > 0, "iter-prefix-filtered-some-key")
+	inc(len(spec.Prefix) > 0 && f.SnapshotKeys == 0, "iter-prefix-matches-nothing")
+	inc(f.SkippedBackwardSeek > 0, "iter-backward-seek-not-issued")
+}
+
+// ShardsUsed computes over how many index shards the keys spread (measurement
+// for labels only; mirrors the documented scheme: xxhash & (2^k - 1), capped at 1024).
+func ShardsUsed(keys [][]byte, shardNum int) int {
+	n := 1
+	for n < shardNum && n < 1024 {
+		n <<= 1
+	}
+	seen := map[uint64]bool{}
+	for _, k := range keys {
+		seen[xxhash.Sum64(k)&uint64(n-1)] = true
+	}
+	return len(seen)
 }
